@@ -198,6 +198,94 @@ impl BuildRecord {
     }
 }
 
+/// Parse an RFC 3339 date-time with UTC offset (`2019-11-21T18:33:35+00:00`,
+/// `...Z`, optional fractional seconds) into `(seconds since the Unix epoch,
+/// nanoseconds)`. Returns `None` for any other notation.
+fn parse_build_time(text: &str) -> Option<(i64, u32)> {
+    fn number(text: &str, range: std::ops::Range<usize>) -> Option<i64> {
+        let digits = text.get(range)?;
+        if digits.is_empty() || !digits.bytes().all(|b| b.is_ascii_digit()) {
+            return None;
+        }
+        digits.parse().ok()
+    }
+
+    let bytes = text.as_bytes();
+    if bytes.len() < 20
+        || bytes[4] != b'-'
+        || bytes[7] != b'-'
+        || !matches!(bytes[10], b'T' | b't')
+        || bytes[13] != b':'
+        || bytes[16] != b':'
+    {
+        return None;
+    }
+
+    let (year, month, day) = (number(text, 0..4)?, number(text, 5..7)?, number(text, 8..10)?);
+    let (hour, minute, second) = (
+        number(text, 11..13)?,
+        number(text, 14..16)?,
+        number(text, 17..19)?,
+    );
+    if !(1..=12).contains(&month)
+        || !(1..=31).contains(&day)
+        || hour > 23
+        || minute > 59
+        || second > 60
+    {
+        return None;
+    }
+
+    // Optional fractional seconds (kept to nanosecond precision)
+    let mut rest = text.get(19..)?;
+    let mut nanos = 0u32;
+    if let Some(fraction) = rest.strip_prefix('.') {
+        let digits = fraction.bytes().take_while(u8::is_ascii_digit).count();
+        if digits == 0 {
+            return None;
+        }
+        let mut scale = 100_000_000u32;
+        for digit in fraction.bytes().take(digits.min(9)) {
+            nanos += u32::from(digit - b'0') * scale;
+            scale /= 10;
+        }
+        rest = fraction.get(digits..)?;
+    }
+
+    // Mandatory offset: 'Z' or +hh:mm / -hh:mm
+    let offset_seconds = if rest == "Z" || rest == "z" {
+        0
+    } else {
+        let offset = rest.as_bytes();
+        if offset.len() != 6 || offset[3] != b':' {
+            return None;
+        }
+        let sign = match offset[0] {
+            b'+' => 1,
+            b'-' => -1,
+            _ => return None,
+        };
+        let (hours, minutes) = (number(rest, 1..3)?, number(rest, 4..6)?);
+        if hours > 23 || minutes > 59 {
+            return None;
+        }
+        sign * (hours * 3600 + minutes * 60)
+    };
+
+    // Days since 1970-01-01 in the proleptic Gregorian calendar
+    let shifted_year = if month <= 2 { year - 1 } else { year };
+    let era = shifted_year.div_euclid(400);
+    let year_of_era = shifted_year.rem_euclid(400);
+    let day_of_year = (153 * ((month + 9) % 12) + 2) / 5 + day - 1;
+    let day_of_era = year_of_era * 365 + year_of_era / 4 - year_of_era / 100 + day_of_year;
+    let days = era * 146_097 + day_of_era - 719_468;
+
+    Some((
+        days * 86_400 + hour * 3600 + minute * 60 + second - offset_seconds,
+        nanos,
+    ))
+}
+
 /// In-memory database of builds, indexed by product.
 #[derive(Debug, Clone)]
 pub struct BuildDatabase {
@@ -251,9 +339,20 @@ impl BuildDatabase {
                 .push(build);
         }
 
-        // Sort each product's builds by build_time (newest first)
+        // Sort each product's builds by build_time (newest first). Timestamps
+        // are compared as instants: the same moment can be written with
+        // different UTC offsets, 'Z' or fractional seconds, so the text order
+        // is not the time order. Text that is not an RFC 3339 date-time with
+        // an offset sorts after all parsed timestamps, in text order as before.
         for builds in builds_by_product.values_mut() {
-            builds.sort_by(|a, b| b.build_time.cmp(&a.build_time));
+            builds.sort_by(|a, b| {
+                let key_a = (parse_build_time(&a.build_time), a.build_time.as_str());
+                let key_b = (parse_build_time(&b.build_time), b.build_time.as_str());
+                match (key_a.0, key_b.0) {
+                    (Some(ia), Some(ib)) => ib.cmp(&ia),
+                    _ => key_b.cmp(&key_a),
+                }
+            });
         }
 
         let total_builds = builds_by_product.values().map(Vec::len).sum();
